@@ -395,8 +395,50 @@ def check(P: Project, R: Report) -> None:
     for mname, kt, full, ok, lineno in keys:
         R.ob("R3", f"fallback {mname}: cache key `{kt}` identifies the class", ok, f"{base.rel}:{lineno}",
              f"key `{full}` is built from the class name only; {len(dup)} model class names are defined twice ({', '.join(dup[:4])}…), so two different classes would share one cache entry (e.g. an alias map)")
-    nested = [c for c in walk_local(fbm.get("_serialize_value", dump)) if isinstance(c, ast.Call) and call_name(c).endswith(".model_dump")]
-    R.ob("R3", "fallback passes by_alias down to nested models", bool(nested) and all(kwarg(c, "by_alias") is not None for c in nested), base.rel, "")
+    def _nested_dumps(fn_node, seen):
+        """(call, function it stands in) for each `.model_dump(…)` of a nested value, through the fallback's own helpers"""
+        out_ = []
+        for c in walk_local(fn_node):
+            if not isinstance(c, ast.Call):
+                continue
+            if call_name(c).endswith(".model_dump"):
+                out_.append((c, fn_node))
+            g = funcs.get(c.func.id) if isinstance(c.func, ast.Name) else (fbm.get(c.func.attr) if isinstance(c.func, ast.Attribute) and isinstance(c.func.value, ast.Name) and c.func.value.id in ("self", "cls") else None)
+            if g is not None and g.name not in seen and g.name != "model_dump":
+                seen.add(g.name)
+                out_ += _nested_dumps(g, seen)
+        return out_
+
+    def _hands_on_by_alias(c: ast.Call, fn_node) -> bool:
+        if kwarg(c, "by_alias") is not None:
+            return ast.unparse(kwarg(c, "by_alias")) == "by_alias"
+        # `value.model_dump(**options)`: every caller of the helper builds `options` with the running call's by_alias in it
+        stars = [k.value for k in c.keywords if k.arg is None]
+        if len(stars) != 1 or not isinstance(stars[0], ast.Name):
+            return False
+        pname = stars[0].id
+        params = [a.arg for a in fn_node.args.args]
+        if pname not in params or any(isinstance(x, ast.Name) and x.id == pname and not isinstance(x.ctx, ast.Load) for x in walk_local(fn_node)):
+            return False
+        pos = params.index(pname)
+        ok_, n_ext = True, 0
+        for host in list(funcs.values()) + list(fbm.values()):
+            for k in walk_local(host):
+                if isinstance(k, ast.Call) and ((isinstance(k.func, ast.Name) and k.func.id == fn_node.name) or (isinstance(k.func, ast.Attribute) and k.func.attr == fn_node.name)):
+                    a = k.args[pos] if pos < len(k.args) else kwarg(k, pname)
+                    if host is fn_node and isinstance(a, ast.Name) and a.id == pname:
+                        continue  # the helper handing its own options on to itself
+                    n_ext += 1
+                    given = None
+                    if isinstance(a, ast.Call) and call_name(a) == "dict" and not a.args:
+                        given = kwarg(a, "by_alias")
+                    elif isinstance(a, ast.Dict):
+                        given = next((v for kk, v in zip(a.keys, a.values) if isinstance(kk, ast.Constant) and kk.value == "by_alias"), None)
+                    ok_ = ok_ and given is not None and ast.unparse(given) == "by_alias" and "by_alias" in [x.arg for x in host.args.args + host.args.kwonlyargs]
+        return ok_ and n_ext >= 1
+
+    nested = _nested_dumps(fbm.get("_serialize_value", dump), set())
+    R.ob("R3", "fallback passes by_alias down to nested models", bool(nested) and all(_hands_on_by_alias(c, f_) for c, f_ in nested), base.rel, "")
 
     # model configuration that rewrites or restricts values (only Pydantic reads it)
     from ..models import config_findings
